@@ -75,4 +75,9 @@ BUILT = {
   text='hashmap.c of the tree under test is exercised in-process with histories over 60 keys that collide at every capacity reached (put after delete in one collision group, rehash with live tombstones, churn bursts of 700 fresh keys, non-terminated keys), all keys re-queried after every step; the same command language is fuzzed coverage-guided; macro-table histories (incl. redefinition of the predefined dynamic macros) are checked end to end.',
   note='the reference dictionaries are trivially correct; libFuzzer seeds pin a campaign only approximately (the crash artefact is the replay unit)',
   also=['libfuzzer']),
+ 'C20': dict(
+  technique='property-based invariant testing: Hypothesis-generated (form, types, values, repetition count) tuples; assembly probes read rsp and the x87 TOP/tag word from the same frame before and after N evaluations; results and a follow-up long double computation compared with gcc+clang',
+  level='exploration',
+  text='About 45 expression/statement forms in discard and value contexts over 16 operand types (long double and by-value structs included), evaluated up to 100000 times between two probes: rsp must be unchanged (alloca: bounded), the x87 stack unchanged and empty, a long double computation afterwards must give the reference value.',
+  note='invariants are observed through gcc-assembled probes; D45 (more than 8 pending long double temporaries) recorded, generator nests at most 3'),
 }
